@@ -730,7 +730,15 @@ func runV(o *outT, r *rnd, step int, last *types.ValidatorSet, reported []*types
 	for k := 0; k < 3; k++ {
 		res2, full2 := doit(permVals(r, reported), k > 0)
 		if res2 != res || full2 != full {
-			o.Fail(step, "valset-order-dependent", fmt.Sprintf("reported order / change-set order changes the result: %s | %s  vs  %s | %s", res, full, res2, full2))
+			cls := "valset-order-dependent"
+			seenA := map[common.Address]bool{}
+			for _, v := range reported {
+				if seenA[v.Address] {
+					cls = "valset-order-dependent-duplicate-report"
+				}
+				seenA[v.Address] = true
+			}
+			o.Fail(step, cls, fmt.Sprintf("reported order / change-set order changes the result: %s | %s  vs  %s | %s", res, full, res2, full2))
 			break
 		}
 	}
@@ -1394,8 +1402,19 @@ func runCase(o *outT, idx int, seed uint64) (rspec *caseSpec, rwant []string) {
 			return
 		}
 		if strings.HasPrefix(ref, "apply=") {
-			o.Fail(step, "own-block-not-applied", ref)
-			return
+			// nobody can apply this block: it must at least fail identically everywhere
+			for _, p := range peers {
+				if got := p.n.apply(blk, parts, seen, touched); got != ref {
+					o.Fail(step, "nondeterministic-across-configurations", fmt.Sprintf("%s vs default: %s", p.n.name, diffObs(ref, got)))
+				}
+			}
+			cls := "own-block-not-applied"
+			if strings.Contains(ref, "commit failed for application: execution reverted") {
+				cls = "own-block-unappliable-staking-revert"
+			}
+			o.Fail(step, cls, ref)
+			o.Count("exec:block-unappliable")
+			break
 		}
 		if R.st.NextValidators.Hash() != prevNV {
 			valChanged = true
